@@ -221,7 +221,8 @@ def bind_by_signature(I, qual, args, kwargs, st, node):
 
 
 def call_by_contract(I, node, qual, args, kwargs, st, ctor=None):
-    c = REGISTRY.get(qual)
+    cc = I.cur_contract
+    c = REGISTRY.get(getattr(cc, 'alias', {}).get(qual, qual)) if cc is not None else REGISTRY.get(qual)
     if c is None:
         raise EngineLimit('no contract for %s' % qual)
     I.used_contracts.add(qual)
@@ -262,6 +263,16 @@ def call_by_contract(I, node, qual, args, kwargs, st, ctor=None):
     # 3. normal outcome: havoc frame, fresh result, assume postconditions
     havoc_modifies(I, c, env, st)
     rt = c.returns if c.returns is not None else NoneT
+    if ctor is not None and isinstance(c.returns, (Opaque, MutOpaque)):
+        # constructor summarised as "returns an abstract object"
+        for st1, res in fresh_value(I, st, c.returns, 'new_' + ctor.qual.rsplit('.', 1)[-1]):
+            b = dict(env)
+            b['result'] = res
+            for e in c.ensures:
+                assume_expr(I, e, b, st1, scope)
+            if I.feasible(st1.pc):
+                yield st1, res
+        return
     if ctor is not None:
         # fresh fields
         self_ref = env[list(env)[0]]
@@ -412,6 +423,12 @@ def on_yield(I, ynode, v, st):
         raise EngineLimit('yield outside a generator contract')
     st.ghost = dict(st.ghost)
     st.ghost['__yielded__'] = ys + [v] if isinstance(ys, list) else ys
+    c = REGISTRY.get(I.cur_func_qual)
+    if c is not None and getattr(c, 'yield_ensures', None):
+        env = {k: x for k, x in st.env.items() if not k.startswith('__')}
+        env['yielded_value'] = v
+        for k, e in enumerate(c.yield_ensures):
+            prove_expr(I, e, env, st, c.scope, 'yield', node=ynode, name='%s#yield[%d]' % (I.cur_func, k), note=e)
     hook = st.ghost.get('__on_yield__')
     if hook is not None:
         yield from hook(I, ynode, v, st)
